@@ -105,9 +105,12 @@ pub fn k_c16_rp62_merge_rules() {
         if v < m { inner(&s[5]) == 0 && inner(&s[11]) == inner(&BaseElement::new(5)) }
         else { inner(&s[5]) == inner(&BaseElement::new(v / m)) && inner(&s[11]) == inner(&BaseElement::new(6)) });
     vcheck!("C16.rp62.merge_with_int.rest_zero", inner(&s[6]) == 0 && inner(&s[7]) == 0 && inner(&s[8]) == 0 && inner(&s[9]) == 0 && inner(&s[10]) == 0);
-    // C17: x and x + p are separated by the capacity word
+    // C17: x < p and x + k*p (k >= 1) are separated by the capacity word: it is new(5) exactly for the integers
+    // below the modulus and new(6) exactly for those at or above it, and the two words differ
     vcheck!("C17.rp62.merge_with_int.separates_congruent_integers",
-        inner(&BaseElement::new(5)) != inner(&BaseElement::new(6)));
+        inner(&BaseElement::new(5)) != inner(&BaseElement::new(6))
+            && (v < m) == (inner(&s[11]) == inner(&BaseElement::new(5)))
+            && (v >= m) == (inner(&s[11]) == inner(&BaseElement::new(6))));
     vreach!("C16.rp62.merge.reach");
 }
 
